@@ -4,7 +4,7 @@ From BV Require Import Base.Prelude Model.Block Model.ForkDB Model.Forkable Mode
   Model.Burst Model.Hub Model.CursorResolver Model.Joining
   Spec.Consumer Spec.Universe Check.Burst_Check Check.C07_Check Spec.C06_Spec Spec.C07_Spec Spec.C09_Spec Spec.C13_Spec
   Spec.C07_Compose_Spec Spec.C07_Shapes_Spec Spec.C07_More_Spec Spec.C13_More_Spec
-  Proofs.C07_Shapes Proofs.C13_More Proofs.C07_FiltersTarget Proofs.C07_FiltersCursor Proofs.C07_FullRefuted Proofs.C07_TargetRefuted Properties.C07_Compose Properties.C07_More.
+  Proofs.C07_Shapes Proofs.C13_More Proofs.C07_FiltersTarget Proofs.C07_FiltersCursor Proofs.C07_Final Proofs.C07_FinalCursor Proofs.C07_FinalTarget Proofs.C07_FullRefuted Proofs.C07_TargetRefuted Properties.C07_Compose Properties.C07_More.
 Local Open Scope N_scope.
 
 (* every filter, stop block, mode, world, schedule: the three shapes of the raw sequence of a run and what the handler
@@ -57,6 +57,22 @@ Proof.
   split; [exists (cx_b 17); split; [vm_compute; tauto | reflexivity]|].
   split; [vm_compute; discriminate|]. split; vm_compute; reflexivity.
 Qed.
+
+(* final blocks only with a stop block, from a block number: a run that ends with stop-block-reached has delivered, from the
+   start point on, exactly the canonical blocks up to block S itself, S last *)
+Theorem c13_stop_final_num : C13_stop_final_num.
+Proof. exact c13_stop_final_num_proof. Qed.
+Print Assumptions c13_stop_final_num.
+
+(* ... resumed from a cursor on a final block below S: exactly the canonical blocks above the cursor block up to S, S last *)
+Theorem c13_stop_final_cursor : C13_stop_final_cursor.
+Proof. exact c13_stop_final_cursor_proof. Qed.
+Print Assumptions c13_stop_final_cursor.
+
+(* ... and through a target cursor on a final block, not beyond S *)
+Theorem c13_stop_final_target : C13_stop_final_target.
+Proof. exact c13_stop_final_target_proof. Qed.
+Print Assumptions c13_stop_final_target.
 
 (* the scope hypothesis of c13_stop_target is needed (target cursor beyond the bundle of the stop block) *)
 Theorem c13_stop_target_scope_needed : C13_stop_target_scope_needed.
